@@ -41,6 +41,9 @@ def execute(entry, cfg, origin, seed, idxkind):
     est = entry["factory"]()
     n, sp = cfg["n"], cfg["sp"]
     train = ser(0, n - 1, sp, entry, seed, origin, idxkind)
+    if seed % 4 == 2:
+        # the same object was fitted before, on a stretch that starts one time point later: nothing of it may survive
+        est.fit(ser(1, n + 2, sp, entry, seed + 9, origin, idxkind))
     est.fit(train)
     hi = n - 1
     if hasattr(est, "update"):
